@@ -1183,6 +1183,8 @@ class PSBTIn:
                 and not self.redeem_script.is_witness_script()
             ):
                 raise ValueError("Witness UTXO provided for non-witness input")
+            if self.redeem_script and not script_pubkey.is_p2sh():
+                raise ValueError("RedeemScript defined for non-p2sh ScriptPubKey")
             if self.witness_script:  # p2wsh or p2sh-p2wsh
                 if not script_pubkey.is_p2wsh() and not (
                     self.redeem_script and self.redeem_script.is_p2wsh()
@@ -1228,6 +1230,12 @@ class PSBTIn:
                         )
         else:
             # non-witness input
+            if self.witness_script and (
+                not script_pubkey
+                or not script_pubkey.is_p2wsh()
+                or self.witness_script.sha256() != script_pubkey.commands[1]
+            ):
+                raise ValueError("WitnessScript sha256 and output sha256 do not match")
             if self.redeem_script:
                 if not script_pubkey.is_p2sh():
                     raise ValueError("RedeemScript defined for non-p2sh ScriptPubKey")
